@@ -18,7 +18,8 @@ RULE = (
     "ending root call holding all values of every capture in order (nested and sibling calls under that "
     "root only), none if a capture never got a value; forced total: one record per (embedding, focus "
     "binding) with the complete outer values (multiset per exit). non-trivial = distinct (tree, selector) "
-    "pairs with at least one expected record"
+    "pairs with at least one expected record. The probe is made in turn by probing(selector), by "
+    "probing('A > p', selector) - one probe holding a focused and a focus-free selector - and by global_probe()"
 )
 ASSUMPTIONS = [
     "records are attributed to root exits through their position in the program's own activation log",
@@ -77,8 +78,10 @@ def split_records(trace):
     return clean, by_exit, stray
 
 
-def check_selector(mode, sel, trees, part):
-    from ptera import probing
+def check_selector(mode, sel, trees, part, entry="probing"):
+    """entry: how the probe is made - probing(selector); probing(focused selector, selector): one probe
+    for a focused and a focus-free selector; global_probe(selector, ...)."""
+    from ptera import probing, global_probe
 
     R.self_check()
     tw = E.tree_world()
@@ -86,12 +89,20 @@ def check_selector(mode, sel, trees, part):
     tr = tw.ns["TRACE"]
 
     def on(ev):
+        if entry == "mixed" and set(ev) == {"p"}:
+            return  # an event of the focused companion selector 'A > p' (entry "mixed")
         tr.append(("record", {k: list(c.values) for k, c in ev.items()}))
 
     try:
-        p = probing(text, env=dict(tw.funcs), raw=True, probe_type="total" if mode == "forced" else None)
-        p.subscribe(on)
-        p.__enter__()
+        ptype = "total" if mode == "forced" else None
+        if entry == "global":
+            p = global_probe(text, env=dict(tw.funcs), raw=True, probe_type=ptype)
+            p.subscribe(on)
+        else:
+            texts = ("A > p", text) if entry == "mixed" else (text,)
+            p = probing(*texts, env=dict(tw.funcs), raw=True, probe_type=ptype)
+            p.subscribe(on)
+            p.__enter__()
     except BaseException as e:
         world.reset_context()
         E.reset_tree_world()
@@ -103,7 +114,7 @@ def check_selector(mode, sel, trees, part):
                 raw = tw.run(tree)
             except BaseException as e:
                 part["violations"].append(violation(
-                    PROP, "call-failed", {"selector": text, "mode": mode, "tree_repr": repr(tree)},
+                    PROP, "call-failed", {"selector": text, "mode": mode, "entry": entry, "tree_repr": repr(tree)},
                     f"{CT.describe(tree)}: {type(e).__name__}: {e}", tags=["call-failed"]))
                 continue
             trace, by_exit, stray = split_records(raw)
@@ -133,11 +144,14 @@ def check_selector(mode, sel, trees, part):
                     bad = ("wrong-forced-total-records", f"expected per root exit {exp!r}, delivered {by_exit!r}")
             if bad:
                 part["violations"].append(violation(
-                    PROP, bad[0], {"selector": text, "mode": mode, "tree_repr": repr(tree)},
-                    f"{text} [{mode}] on {CT.describe(tree)}: {bad[1]}", tags=[bad[0]]))
+                    PROP, bad[0], {"selector": text, "mode": mode, "entry": entry, "tree_repr": repr(tree)},
+                    f"{text} [{mode}, made by {entry}] on {CT.describe(tree)}: {bad[1]}", tags=[bad[0]]))
     finally:
         try:
-            p.__exit__(None, None, None)
+            if entry == "global":
+                p.deactivate()
+            else:
+                p.__exit__(None, None, None)
         except BaseException as e:
             part["violations"].append(violation(PROP, "deactivation", {"selector": text, "mode": mode}, f"{type(e).__name__}: {e}", tags=["deactivation"]))
     E.ensure_clean(tw)
@@ -146,8 +160,12 @@ def check_selector(mode, sel, trees, part):
 def work(unit, tier):
     part = new_partial()
     _, lo, hi = unit
-    for mode, sel in selectors(tier)[lo:hi]:
-        check_selector(mode, sel, tree_list(tier), part)
+    for n, (mode, sel) in enumerate(selectors(tier)[lo:hi]):
+        # the entry point alternates: probing(); a probe that also has a focused selector (focus-free
+        # selectors only); global_probe()
+        k = (lo + n) % 3
+        entry = "probing" if k == 0 else ("mixed" if (k == 1 and mode == "total") else "global")
+        check_selector(mode, sel, tree_list(tier), part, entry=entry)
         if len(part["samples"]) < 2:
             part["samples"].append({"selector": R.render(sel), "mode": mode, "example_tree": CT.describe(tree_list(tier)[300])})
     return part
@@ -158,7 +176,7 @@ def replay(case):
     tree = eval(case["tree_repr"]) if "tree_repr" in case else None
     for mode, sel in selectors("thorough"):
         if R.render(sel) == case["selector"] and mode == case["mode"]:
-            check_selector(mode, sel, [tree] if tree else tree_list("quick"), part)
+            check_selector(mode, sel, [tree] if tree else tree_list("quick"), part, entry=case.get("entry", "probing"))
             if part["violations"]:
                 return True, part["violations"][0]["detail"]
             return False, "records equal the RSS expectation"
